@@ -96,6 +96,81 @@ Proof.
 Qed.
 Print Assumptions C01_history_times.
 
+(* ---------- history level: the fields ages and lifetimes are computed from, and the decision ---------- *)
+From HC.Proofs Require Import SrcProofs.
+
+(* C01 over whole histories.  Along EVERY sequential history from an empty store (any requests, origin script, timing),
+   an exchange that returns a response without contacting the origin returns the synthesised 504, or the served form
+   of an entry e such that
+   (a) [Src]: e is exactly what StoreResponse files for the reply of one origin call of the history — its status and
+       body, its header block after the Date repair and the removal of hop-by-hop fields, and as request / response
+       instants the start / end of that very call — or such an entry freshened, any number of times, by the 304 of
+       another call of the history (fields merged by updateStoredHeaders, instants of the validating call): the inputs
+       of the age and lifetime computations cannot be anything but what the origin sent and when; and
+   (b) at the instant the exchange started, e is fresh by the specification's age and lifetime (saturating arithmetic,
+       request max-age / min-fresh applied) or its staleness is explicitly allowed (max-stale, only-if-cached, the stored
+       stale-while-revalidate window).
+   The premise [valid_date] of (b) — the stored Date parses — fails only when the origin itself names Date in a
+   Connection field, or for clock readings outside the years HTTP-dates can express. *)
+Theorem C01_history : forall cfg h t0 script k gq obs o,
+  let all := run_history cfg h (init_world t0 script) in
+  let L := flat_map (fun x => x_events x ++ x_bg_events x) all in
+  nth_error h k = Some gq -> nth_error all k = Some obs -> x_result obs = Done o -> ~ has_call (x_events obs) ->
+  o = OResp response_504 \/
+  exists e, Src (GXl L) e /\ o = served_outcome (snd gq) e (x_t0 obs) /\
+    (valid_date (e_hdr e) ->
+     fresh_enough (view_of e) (snd gq) (x_t0 obs) || staleness_allowed (view_of e) (snd gq) (x_t0 obs) = true).
+Proof.
+  intros cfg h t0 script k gq obs o all L Hk Ho Hr Hnc.
+  destruct (history_safeX L cfg h (init_world t0 script)) as [_ H]; [intros k' e' E; discriminate|apply incl_refl|].
+  destruct (H k gq obs o Hk Ho Hr Hnc) as [E|(e & Hs & Hd & E)]; [left; exact E|right].
+  exists e. split; [exact Hs|split; [exact E|]]. intros Hv.
+  apply decision_fresh_or_allowed; [exact Hv|eapply Src_status; exact Hs|exact Hd].
+Qed.
+Print Assumptions C01_history.
+
+(* what (a) says, field by field *)
+Theorem C01_history_sources : forall GX e, Src GX e ->
+  e_status e <> 304 /\
+  (exists q r, GX q (e_req_at e) (e_recv_at e) r) /\
+  (exists q a b r, GX q a b r /\ p_status r <> 304 /\ e_status e = p_status r /\ e_body e = p_body r) /\
+  ((exists q a b r, GX q a b r /\ p_status r <> 304 /\ e_hdr e = remove_hop_by_hop (fix_date_header (p_hdr r) b)) \/
+   (exists e0 q a b r, Src GX e0 /\ GX q a b r /\ p_status r = 304 /\
+      e_hdr e = remove_hop_by_hop (update_stored_headers (e_hdr e0) (fix_date_header (p_hdr r) b)))).
+Proof.
+  intros GX e H. split; [eapply Src_status; exact H|split; [apply Src_instants, H|split; [apply Src_body, H|apply Src_header, H]]].
+Qed.
+Print Assumptions C01_history_sources.
+
+(* every stored entry has such a source, after any history *)
+Theorem C01_history_store : forall cfg h t0 script k e,
+  get_entry (w_store (final_world cfg h (init_world t0 script))) k = Some e ->
+  Src (GXl (flat_map (fun x => x_events x ++ x_bg_events x) (run_history cfg h (init_world t0 script)))) e.
+Proof.
+  intros cfg h t0 script k e H.
+  destruct (history_safeX (flat_map (fun x => x_events x ++ x_bg_events x) (run_history cfg h (init_world t0 script)))
+              cfg h (init_world t0 script)) as [HI _]; [intros k' e' E; discriminate|apply incl_refl|].
+  exact (HI k e H).
+Qed.
+Print Assumptions C01_history_store.
+
+(* non-vacuity: a three-request history whose second exchange is answered from the store without an origin call
+   (the premises of C01_history hold of it, the answer is not the 504), and whose third — one lifetime later — is not *)
+Definition ex_rep : origin_reply :=
+  RResp {| p_status := 200; p_hdr := [(bs "Cache-Control", [bs "max-age=60"]); (bs "Date", [bs "Sat, 01 Jan 2000 00:00:00 GMT"])];
+           p_body := 0; p_body_ok := true |}.
+Definition ex_run : list exchange_obs :=
+  run_history {| cfg_swr_timeout := 0 |} [(0, ex_req); (10 * second, ex_req); (100 * second, ex_req)]
+    (init_world (946684800 * second) [(second, ex_rep, ex_rep); (second, ex_rep, ex_rep)]).
+Example C01_history_nonvacuous :
+  exists o1 o2 o3 r, ex_run = [o1; o2; o3] /\ x_result o2 = Done (OResp r) /\ ~ has_call (x_events o2) /\
+    hvalues status_header (p_hdr r) = [bs "HIT"] /\ hvalues (bs "Age") (p_hdr r) = [bs "11"] /\ has_call (x_events o3).
+Proof.
+  eexists _, _, _, _. split; [vm_compute; reflexivity|]. split; [reflexivity|]. split; [|split; [reflexivity|split; [reflexivity|]]].
+  - rewrite has_callb_spec. vm_compute. discriminate.
+  - rewrite has_callb_spec. vm_compute. reflexivity.
+Qed.
+
 (* the three HTTP-date forms of RFC 9110 §5.6.7 (its own example) denote one instant; a malformed day does not parse *)
 Example C01_date_forms :
   parse_http_time (bs "Sun, 06 Nov 1994 08:49:37 GMT") = Some 784111777 /\
